@@ -961,7 +961,7 @@ func (o *gOp) coqObs() string {
 	if s.HasInitial {
 		ini = "(Some " + hxs(s.InitialClient) + ")"
 	}
-	return u.App("GO", u.Z(int64(o.cls)), u.List(evs), u.App("GS", u.ZU(s.HighestSeq), u.List(act), u.List(ret), ini))
+	return u.App("GO", u.Z(int64(o.cls)), u.List(evs), u.App("GS", u.ZU(s.HighestSeq), u.List(act), u.List(ret), ini, u.Opt(s.HasNextRetire, u.Z(s.NextRetire))))
 }
 
 func (o *gOp) human() string {
@@ -1312,6 +1312,18 @@ func (s *genSession) monitor(o *gOp) {
 			if !sameSet(got, s.expect) {
 				s.fail("map-mismatch", fmt.Sprintf("transport routes %s, expected %s", setStr(got), setStr(s.expect)))
 			}
+		}
+	}
+	// NextRetireTime (if the tree has it) is the earliest expiry among the IDs waiting for removal
+	if o.st.HasNextRetire && o.kind != "removeall" && o.kind != "replace" {
+		var want int64
+		for i, p := range s.pending {
+			if i == 0 || p.expiry < want {
+				want = p.expiry
+			}
+		}
+		if o.st.NextRetire != want {
+			s.fail("next-retire-time", fmt.Sprintf("NextRetireTime() = %d, the earliest pending expiry is %d", o.st.NextRetire, want))
 		}
 	}
 	if o.kind == "remove" {
